@@ -262,3 +262,60 @@ nharness! {
         kani::cover!(!processed && new == old && origin_match, "response to the pending request without effect on the minimum");
     }
 }
+
+// ------------------------------------------------------------------------------------------
+// c10_incoming_v4: what one NTPv4 datagram (48-byte header, all bytes symbolic except byte 0) can do
+// to the server-requested minimum of a plain NTPv4 source with a request in flight. NTPv4 has no
+// field through which a server can ask for an interval, so the minimum may only move within the
+// configured limits (RATE kiss: one step up, clamped at the configured maximum).
+nharness! {
+    #[kani::unwind(6)]
+    fn c10_incoming_v4() {
+        stubs::symbolic_clock();
+        let mut buf: [u8; 49] = kani::any();
+        let min: i8 = kani::any();
+        let max: i8 = kani::any();
+        kani::assume(0 <= min && min <= max && max <= 17);
+        let desire: i8 = kani::any();
+        kani::assume(min <= desire && desire <= max);
+        let old: i8 = kani::any();
+        kani::assume(min <= old && old <= max);
+        let reach: u8 = kani::any();
+        let req_origin: u64 = kani::any();
+        let dl = any_deadline();
+        let origin_match: bool = kani::any();
+        let send_raw: u64 = kani::any();
+        let recv_raw: u64 = kani::any();
+
+        let mut src = new_source(ProtocolVersion::V4, cfg(min, max), poll(desire), None);
+        sh::set_remote_min_poll_interval(&mut src, poll(old));
+        // what the last poll left behind: the interval used was max(desire, server minimum)
+        let last = core::cmp::max(desire, old);
+        sh::set_last_poll_interval(&mut src, poll(last));
+        sh::set_reach(&mut src, reach);
+        let deadline = deadline_from_now(&dl);
+        sh::set_pending(&mut src, Some((th::ts_from_raw(req_origin), None, deadline)));
+
+        // leap 0, version 4, mode server
+        buf[0] = 0x24;
+        if origin_match {
+            put_bytes(&mut buf, 24, &req_origin.to_be_bytes());
+        }
+        let in_time = ghost_in_time(deadline);
+
+        let (_acts, _n) = collect_actions(src.handle_incoming(&buf[..48], th::ts_from_raw(send_raw), th::ts_from_raw(recv_raw)));
+
+        let new = th::poll_raw(sh::state(&src).remote_min_poll_interval);
+        let n_meas = sh::controller(&src).n_meas;
+        core::mem::forget(src);
+        assert!(new >= old, "no datagram lowers the server-requested minimum");
+        assert!(new <= max, "an NTPv4 server cannot push the minimum beyond the configured maximum");
+        assert!(new <= core::cmp::max(old + 1, last), "at most one step above the old minimum, or up to the interval of the last poll");
+        if n_meas > 0 {
+            assert!(new == old, "a time response does not change the minimum (NTPv4)");
+        }
+        kani::cover!(new == old + 1 && in_time, "RATE kiss raises the minimum by one step");
+        kani::cover!(new == old && old == max && buf[1] == 0 && buf[12] == b'R' && buf[13] == b'A' && origin_match && in_time, "RATE kiss at the configured maximum is clamped");
+        kani::cover!(n_meas == 2, "time response processed");
+    }
+}
